@@ -30,7 +30,7 @@ Failed(e) ==
   IN   (IF NoLossEdge(a, b, la, r) THEN {} ELSE {"C02"})
   \cup (IF completed /\ ~(r.a = r.b /\ r.common = r.a /\ e.t.tr) THEN {"C06"} ELSE {})
   \cup (IF completed /\ ~ConflictShapeEdge(a, b, e.s.tr, z, r) THEN {"C06"} ELSE {})
-  \cup (IF wasFixpoint /\ ~(e.t.A = e.s.A /\ e.t.B = e.s.B /\ e.t.E = e.s.E /\ e.nplan = 0 /\ e.exit = 0) THEN {"C06"} ELSE {})
+  \cup (IF wasFixpoint /\ ~(e.t.A = e.s.A /\ e.t.B = e.s.B /\ e.t.E = e.s.E /\ e.nplan \in {0, -1} /\ e.exit = 0) THEN {"C06"} ELSE {})
   \cup (IF ~e.swap_ok \/ ~e.mtime_ok THEN {"C06"} ELSE {})
   \cup (IF ~e.s.tr /\ ~NoBaseNoDeleteEdge(a, b, r) THEN {"C07"} ELSE {})
   \cup (IF ~e.dry_unchanged THEN {"C15"} ELSE {})       \* a dry run taken just before this run (fault edges) changed something
